@@ -250,6 +250,7 @@ fn rust_type(t: &str) -> Result<Option<Core>, String> {
         return Ok(Some(Core::I32));
     }
     // `::core::mem::MaybeUninit<u64>` is how the Rust backend spells "pointer or i64"
+    let t = t.replace("MaybeUninit::<", "MaybeUninit<");
     let t = match t.split_once("MaybeUninit<") {
         Some((p, inner)) if p.chars().all(|c| c == ':' || c.is_alphanumeric() || c == '_') => {
             inner.strip_suffix('>').unwrap_or(inner).to_string()
